@@ -218,6 +218,9 @@ inline int reg_loc(char const* what)
   W->locs.emplace_back();
   Loc& L = W->locs.back();
   L.what = what;
+  // construction is an event of the constructing thread: an access by another thread needs happens-before from it even when
+  // it is the very first thing that thread does
+  if (W->in_exec && W->cur != 0) W->th[W->cur].clk.c[W->cur]++;
   L.ctor_clk = W->th[W->cur].clk;
   for (int t = 0; t < MAXT; ++t)
     if (W->th[t].view.size() < W->locs.size()) W->th[t].view.resize(W->locs.size(), 0);
